@@ -1084,8 +1084,10 @@ impl Run<'_> {
         self.site_count[t][site as usize] += 1;
         let k = self.site_count[t][site as usize];
         let init_site = matches!(site, SITE_USER | SITE_INIT_BEGUN | SITE_PRODUCED | SITE_INSTALLED | SITE_ANNOUNCED | SITE_LOADED);
-        if init_site && region.is_none() {
-            // an initialiser in an unknown region cannot be modelled
+        if (init_site || site == SITE_SYNC) && region.is_none() {
+            // an initialiser in an unknown region cannot be modelled (a sync operation may lie
+            // inside an initialisation, with this thread's marker in a slot nobody can name:
+            // a read of another thread in that region would wait for it, and so for the harness)
             return Ok(false);
         }
         // region_local runs the initialiser once per region, so a reader rarely passes an
@@ -1343,8 +1345,29 @@ fn check_case(name: &str, cached: bool, case: &Case, ctx: &mut Ctx, exec: &mut W
     let verdict = match reply {
         ChildReply::Done(report) => judge(&report, cached, name, ctx),
         ChildReply::Hang(m) => {
+            // a watchdog verdict counts only if the same case hangs again in a fresh executor
+            // process (an oversubscribed machine can starve a thread past any deadline)
             exec.restart();
-            Err(Failure::new(format!("C13/{name}/hang"), format!("watchdog: {m}")))
+            let again = match exec.call(&req, Duration::from_secs(100)) {
+                Reply::Line(l) => serde_json::from_str::<ChildReply>(&l).unwrap_or_else(|e| ChildReply::Protocol(format!("unreadable reply: {e}"))),
+                Reply::Timeout => ChildReply::Hang("the executor process did not answer".into()),
+                Reply::Died(m) => ChildReply::Panic(format!("executor process died: {m}")),
+            };
+            match again {
+                ChildReply::Hang(m2) => {
+                    exec.restart();
+                    Err(Failure::new(format!("C13/{name}/hang"), format!("watchdog (twice, the second time in a fresh process): {m} / {m2}")))
+                }
+                ChildReply::Done(report) => {
+                    ctx.classify("watchdog-expired-once-but-not-on-re-run(inconclusive)");
+                    judge(&report, cached, name, ctx)
+                }
+                ChildReply::Panic(m2) => Err(Failure::new(format!("C13/{name}/panic/{}", vcommon::normalise(&m2)), format!("operation panicked: {m2}"))),
+                ChildReply::Protocol(m2) => {
+                    exec.restart();
+                    Err(Failure::new(format!("C13/{name}/harness-protocol"), m2))
+                }
+            }
         }
         ChildReply::Panic(m) => Err(Failure::new(format!("C13/{name}/panic/{}", vcommon::normalise(&m)), format!("operation panicked: {m}"))),
         ChildReply::Protocol(m) => {
